@@ -470,7 +470,7 @@ CHECKS = {
                       "iterating without ever blocking is detected by the unwinding bound), a fresh session is established, a later SendMessage succeeds and "
                       "is written to the live session (never to the lost one), an inbound envelope on the new session reaches the handler, the lost "
                       "session's connection is released, and Client.Close leaves no goroutine behind.",
-        "level_note": "Trusted: SSA->SMT executor, bounded cooperative scheduler, z3. Bounds: 1 fault, <= 4 transports, loop bound 5 for library loops, P = 0 / 1 / 2. "
+        "level_note": "Trusted: SSA->SMT executor, bounded cooperative scheduler, z3. Bounds: 1 fault, <= 4 transports, loop bound 5 for library loops, P = 0 / 1 / 2 (all three in both tiers). "
                       "Busy-looping is an engine-side verdict (not observable natively); its consequences (no fresh session, deaf listener, untruthful send) are "
                       "replayed natively. Back-off sleep timing and repeated faults are outside the claim.",
         "runs": [
@@ -482,9 +482,9 @@ CHECKS = {
             {"harness": "HarnessC19Recover", "grid": {"fault": [0, 1], "P": [0, 1]}, "params": {"sched": 1, "spinok": 1, "badid": 1},
              "unroll": 5, "reach": ["c19:send-after-fault-returned"], "threads": True},
             {"harness": "HarnessC19Recover", "grid": {"fault": [0, 1, 2, 3, 4, 5], "inbound1": [0, 1]}, "params": {"sched": 1, "spinok": 1, "P": 2},
-             "unroll": 5, "reach": ["c19:send-after-fault-returned"], "threads": True, "tier": "thorough", "timeout": 7000},
+             "unroll": 5, "reach": ["c19:send-after-fault-returned"], "threads": True, "timeout": 7000},
         ],
-        "bounds": {"quick": {"faults": 1, "preemptions": 1}, "thorough": {"faults": 1, "preemptions": 2}},
+        "bounds": {"quick": {"faults": 1, "preemptions": 2}, "thorough": {"faults": 1, "preemptions": 2}},
         "out": ["timing of back-off sleeps", "repeated faults", "faults during re-establishment", "real transports"],
         "assumptions": ["the replacement server is reachable and well-behaved"],
     },
